@@ -57,8 +57,16 @@ type Src struct {
 		Tag string
 		rev int
 	}
-	Box ext.Box
+	Box   ext.Box
+	W     Wire
+	_     int
+	Stamp struct{ Sec int64 }
+	Lab   string
+	Nums  []int
+	Exp   ext.Exp
 }
+
+func (s *Src) Prof() ext.Profile { return ext.Profile{} }
 
 func (s *Src) Title() string         { return s.Name }
 func (s *Src) Owner() *ext.Owner     { return &s.Imp }
@@ -89,7 +97,29 @@ type Dst struct {
 	}
 	Box   ext.Box2
 	Label Tag
+	W     WireX
+	_     int
+	Stamp ext.Stamp
+	Lab   ext.Label
+	Total int
+	Exp   ext.Exp2
+	Prof  struct {
+		Inner ext.Label
+		Score int
+	}
 }
+
+// Wire / WireX are local types defined over an imported struct: its unexported member stays
+// out of reach.
+type Wire ext.Pet
+
+type WireX ext.Pet
+
+// Label is a local type with the bare name of an imported one.
+type Label int
+
+// Sum is variadic.
+func Sum(xs ...int) int { return len(xs) }
 
 // Tag is a named string (a typecast target).
 type Tag string
